@@ -706,8 +706,8 @@ ENC = ["hypnotoad.cases.tokamak:TokamakEquilibrium.describeSingleNull", "hypnoto
 for _kind in ("lsn", "usn", "cdn", "ldn", "udn"):
     for _g in (0, 1, 2, 3, 4):
         for _suo in (False, True):
-            if _suo and _kind in ("usn", "lsn"):
-                continue  # start_at_upper_outer is documented for double null only
+            if _suo and _kind in ("usn", "lsn") and _g not in (0, 2):
+                continue  # start_at_upper_outer is documented for double null only: with a single null the grid must be the standard one (or be refused)
             OBLIGATIONS.append(Ob(
                 "topology_%s_guards%d%s" % (_kind, _g, "_start_upper_outer" if _suo else ""), _mk(_kind, _g, _suo),
                 tier="quick" if _g in (0, 2) else "thorough", family="topology:" + _kind,
